@@ -188,6 +188,27 @@ def concrete_values(c, assign, labels):
     return {l: res[l] for l in labels}
 
 
+def one_shot(case):
+    """Argument shape: about one case in five hands the operand labels over as one-shot iterators (the generators'
+    signatures say Iterable).  Decided by the case itself so that a replay takes the same shape."""
+    import zlib
+
+    if "one_shot" in case:
+        return bool(case["one_shot"])
+    return zlib.crc32(repr(sorted((k, repr(v)) for k, v in case.items())).encode()) % 5 == 0
+
+
+class OneShot(list):
+    """A label list that the callee receives as a one-shot iterator, kept as a list for the harness."""
+
+    def shot(self):
+        return iter(list(self))
+
+
+def handed_over(x):
+    return x.shot() if isinstance(x, OneShot) else x
+
+
 class OperandLists:
     """Operand label lists handed to a generator as real `list` objects (optionally the *same*
     object for two operands).  A generator must not modify its caller's lists."""
